@@ -249,6 +249,9 @@ def pp_outputs(c2m, text, d, name):
     inc = os.path.join(d, D.INC_NAME)
     if not os.path.exists(inc):
         open(inc, 'w').write(D.INC_TEXT)
+    inc = os.path.join(d, M.LINE_INC_NAME)
+    if not os.path.exists(inc):
+        open(inc, 'w').write(M.LINE_INC_TEXT)
     outs = {}
     for tool, cmd in (('c2m', [c2m, '-E']), ('gcc', ['gcc', '-E', '-P', '-w', '-std=c11']),
                       ('clang', ['clang', '-E', '-P', '-w', '-std=c11'])):
@@ -297,6 +300,12 @@ def one_by_one(c2m, cases, d, tag):
         for r in ex.map(lambda kc: compare_cases(c2m, [kc[1]], d, '%s_%d' % (tag, kc[0])), enumerate(cases)):
             res.update(r)
     return res
+
+
+def one_by_one_idx(c2m, cases, d, tag):
+    """each case as a file of its own; results in the order of the cases"""
+    res = one_by_one(c2m, cases, d, tag)
+    return [res[i] for i, _ in cases]
 
 
 def compare_cases(c2m, cases, d, tag):
@@ -395,6 +404,19 @@ def run_expand(chk, c2m, model_fn, d, quick, model=None):
         feats[idx] = ['cond'] + sorted(fs)
         queries[idx] = (M.cond_query(tree), 'cond', (names, px))
         idx += 1
+    # line structure (round 3, wave z): text lines ending in every kind of token sequence (bare function-like macro names,
+    # aliases, calls whose expansion ends with such a name, names inside arguments / before other macros, calls across
+    # lines, empty expansions) interleaved with directives whose effect is observable
+    nline = 160 if quick else 3000
+    eof_cases = []
+    for k in range(nline):
+        rng = chk.rng('line%d' % k)
+        text, fs, _ = M.gen_line_case(rng, idx, M.LINE_INC_NAME)
+        cases.append((idx, text))
+        feats[idx] = ['lines'] + fs
+        if 'bare-function-like-name-ends-the-case' in fs and len(eof_cases) < (12 if quick else 100):
+            eof_cases.append(idx)           # also run as a file of its own: the name is the last token of the translation unit
+        idx += 1
     # decoration layer (round 3): the same kinds of input -- macro sets + uses, conditional structures, #if expressions,
     # #include, the corpus -- with comments (one line, several lines, //), other white space and backslash-new-line
     # splices put in at token boundaries / any character position (translation phases 2-3 make them invisible)
@@ -410,10 +432,13 @@ def run_expand(chk, c2m, model_fn, d, quick, model=None):
         rng = chk.rng('deco%d' % k)
         w = rng.random()
         names = ()
-        if w < 0.5:
+        if w < 0.42:
             base, fs = M.gen_macro_case(rng, idx)
             names = sorted(set(re.findall(r'\bc%d_\w+' % idx, base)))
             src = 'macro'
+        elif w < 0.5:
+            base, fs, names = M.gen_line_case(rng, idx, M.LINE_INC_NAME, comments=False)
+            src = 'lines'
         elif w < 0.7:
             tree, nm, px, fs = M.gen_cond_tree(rng, idx)
             base, names, src = M.cond_text(tree, nm, px), nm, 'cond'
@@ -450,6 +475,10 @@ def run_expand(chk, c2m, model_fn, d, quick, model=None):
     B = 60
     for off in range(0, len(cases), B):
         results.update(compare_cases(c2m, cases[off:off + B], d, 'pp%d' % off))
+    for k, (i, r) in enumerate(zip(eof_cases, one_by_one_idx(c2m, [(i, texts[i]) for i in eof_cases], d, 'eof'))):
+        chk.dist('pp_features', 'bare-function-like-name-is-the-last-token-of-the-file')
+        if r[0] == 'diff' and results[i][0] != 'diff':
+            results[i] = r
     bad = []
     model_breaks = []
     for i, (st, c, g) in sorted(results.items()):
